@@ -376,7 +376,18 @@ def execute(plan):
                 bump(faults, "mutator_after_cache_populate")
         prev_mutating = k in MUTATORS
 
-        if not skip and out == "ok":
+        # the object and the model must agree on the shape before any value
+        # oracle can be evaluated; a disagreement is itself a violation, after
+        # which the model follows the object so that later steps stay judgeable
+        if tuple(ifg.data.shape) != tuple(mdl.shape) or tuple(mdl.valid.shape) != tuple(mdl.shape):
+            if out == "ok" and not skip:
+                viol("shape-model", i, k, bits, got=list(ifg.data.shape), want=list(mdl.shape))
+            mdl.shape = tuple(ifg.data.shape)
+            mdl.valid = ~np.isnan(ifg.data)
+            out_for_oracles = "resynced"
+        else:
+            out_for_oracles = out
+        if not skip and out_for_oracles == "ok":
             data_now = ifg.data
             # steps that do not claim to change the values must not
             if k in ("read", "slices", "stats", "copy", "precision", "recenter", "latcal", "strip_latcal"):
@@ -487,6 +498,10 @@ def _invariants(np, ifg, mdl, i, k, bits, viol):
     shp = tuple(data.shape)
     if shp != tuple(mdl.shape):
         viol("shape-model", i, k, bits, got=list(shp), want=list(mdl.shape))
+        mdl.shape = shp
+        mdl.valid = ~np.isnan(data)
+        return
+    if data.size == 0 or data.ndim != 2:
         return
     try:
         dxo = float(c.dx)
@@ -494,8 +509,11 @@ def _invariants(np, ifg, mdl, i, k, bits, viol):
         dxo = float("nan")
     if not abs(dxo - mdl.dx) <= 1e-12 * max(abs(mdl.dx), 1e-300):
         viol("dx-model", i, k, bits, got=dxo, want=mdl.dx)
+        if math.isfinite(dxo):
+            mdl.dx = dxo
     if not bool(np.all(np.isnan(data) == ~mdl.valid)):
         viol("validity", i, k, bits, n_bad=int(np.sum(np.isnan(data) != ~mdl.valid)))
+        mdl.valid = ~np.isnan(data)
     coords = {}
     bad_shape = False
     for w in "xyrt":
